@@ -61,7 +61,12 @@ def plan_batches(tier: str, seed: int, only: list[str] | None = None) -> list[tu
     for name, e in passcat.CATALOGUE.items():
         if only and name not in only:
             continue
-        n = int(round((e.quick if tier == 'quick' else e.thorough) * SCALE.get(tier, 1.0)))
+        scale = SCALE.get(tier, 1.0)
+        try:
+            scale *= float(os.environ.get('C10_SCALE', '1'))
+        except ValueError:
+            pass
+        n = int(round((e.quick if tier == 'quick' else e.thorough) * scale))
         n = max(MIN_CASES_PER_ENTRY, n)
         for i in range(n):
             items.append((e.weight, name, i))
